@@ -5,8 +5,15 @@
 (*                                                                         *)
 (* A universe is [req : node -> sequence of nodes] where a node is the     *)
 (* string "path/n": project path (major suffix included: "p" and "p@v2"    *)
-(* are different projects) and version v?.n.0.  DOMAIN req = the tagged    *)
-(* versions.  Root requirements are a sequence of nodes.                   *)
+(* are different projects) and version number n.  n < 100 stands for the   *)
+(* tag v?.n.0.  n >= 100 = 100*minor + 10*patch + k stands for the tag      *)
+(* v?.minor.patch when k = 0 and, when k = 5, for the untagged revision     *)
+(* that follows that tag (its pseudo-version v?.minor.(patch+1)-0.time-rev  *)
+(* sorts between the tag and the next one, as the numbers do).              *)
+(* DOMAIN req = every version that exists, tagged or not; only tagged      *)
+(* versions are candidates of version, range, latest, upgrade and patch    *)
+(* queries, an untagged one is reached by a ref query or a requirement.    *)
+(* Root requirements are a sequence of nodes.                              *)
 (*                                                                         *)
 (* Reach = least fixpoint of the requirement edges from the roots;         *)
 (* BuildList = for every path in Reach the highest version in Reach.       *)
@@ -35,7 +42,10 @@ MaxVer(S, p) == LET vs == { VerOf(x) : x \in { y \in S : PathOf(y) = p } } IN CH
 BuildList(u, roots) == LET R == Reach(u, roots) IN [p \in Paths(R) |-> MaxVer(R, p)]
 
 \* tagged versions of a path
-Tags(u, p) == { VerOf(x) : x \in { y \in DOMAIN u.req : PathOf(y) = p } }
+Tagged(n) == n < 100 \/ n % 10 = 0
+\* versions with the same major.minor
+Group(n) == IF n < 100 THEN n ELSE n \div 100
+Tags(u, p) == { v \in { VerOf(x) : x \in { y \in DOMAIN u.req : PathOf(y) = p } } : Tagged(v) }
 MaxOf(S) == CHOOSE v \in S : \A w \in S : w <= v
 
 \* the version a query denotes: [ok, v].  q = [kind, n]; cur = current version of the path in
@@ -50,7 +60,10 @@ Resolve(u, p, q, cur) ==
       [] q.kind = "gt"      -> pick({ t \in T : t > q.n })
       [] q.kind = "ge"      -> pick({ t \in T : t >= q.n })
       [] q.kind = "upgrade" -> pick(T \cup (IF cur > 0 THEN {cur} ELSE {}))
-      [] q.kind = "patch"   -> IF cur > 0 THEN [ok |-> TRUE, v |-> cur] ELSE pick(T)
+      \* the latest tagged patch release of the selected major.minor, never below the selection
+      [] q.kind = "patch"   -> IF cur > 0 THEN pick({ t \in T : Group(t) = Group(cur) /\ t > cur } \cup {cur}) ELSE pick(T)
+      \* a branch or revision: the tag on that revision, or the revision's pseudo-version
+      [] q.kind = "ref"     -> IF Node(p, q.n) \in DOMAIN u.req THEN [ok |-> TRUE, v |-> q.n] ELSE [ok |-> FALSE]
       [] OTHER -> [ok |-> FALSE]
 
 --------------------------------------------------------------------------
